@@ -72,6 +72,7 @@ struct CaseOut {
     /// known-finding candidates: (signature, detail); reported through the known-findings matcher
     side: Vec<(String, String)>,
     failed_put_key_err: u64,
+    count_checks: u64,
 }
 
 #[allow(dead_code)]
@@ -204,13 +205,18 @@ impl Drop for FsizeGuard {
     }
 }
 
-/// Keys that have, in a blob file of the work dir, a record whose header is intact and whose data is torn:
-/// the trace of a failed append that got beyond the record header before the kernel refused the rest.
-fn torn_intact_header_keys<const N: usize>(d: &Driver<N>) -> Vec<u16> {
+/// Keys that have, in a served blob file, a record with an intact header at the offset of an append that FAILED
+/// (failpoint or kernel short write). Its data may be torn, or - when the cut fell into trailing zero bytes, e.g.
+/// the empty metadata of a plain deletion marker, and later appends filled the hole - the record may even be
+/// complete. Either way it was never acknowledged and a regeneration of the index will pick it up.
+fn failed_append_keys<const N: usize>(d: &Driver<N>, failed: &[(usize, u64)]) -> Vec<u16> {
     let mut out = Vec::new();
     for id in d.dir_blob_ids() {
+        if !failed.iter().any(|f| f.0 == id) {
+            continue;
+        }
         if let Ok(bp) = crate::parse::parse_blob_file(&d.dir.join(format!("t.{}.blob", id))) {
-            for r in bp.records.iter().filter(|r| r.header_crc_ok && !r.data_crc_ok && !r.deleted()) {
+            for r in bp.records.iter().filter(|r| r.header_crc_ok && failed.contains(&(id, r.pos))) {
                 for k in 0..(d.cfg.n_keys + 2) {
                     if crate::drive::key_bytes(d.cfg.key_salt, k, N) == r.key && !out.contains(&k) {
                         out.push(k);
@@ -222,13 +228,45 @@ fn torn_intact_header_keys<const N: usize>(d: &Driver<N>) -> Vec<u16> {
     out
 }
 
+/// Accounting under faults: for every served blob whose file parses to its end, the record count the storage
+/// reports must lie between the number of records of acknowledged appends in the file and that number plus the
+/// records left behind by failed appends (which a regeneration of the index counts). A failed operation must not disturb
+/// the counters of what was acknowledged before.
+async fn counts_vs_files<const N: usize>(d: &mut Driver<N>, failed: &[(usize, u64)]) -> Option<(String, String)> {
+    let det = d.st().records_count_detailed().await;
+    let active = d.model.active;
+    let n_closed = if active.is_some() && d.st().has_active_blob().await { det.len().saturating_sub(1) } else { det.len() };
+    let mut list: Vec<(usize, usize, &'static str)> = det.iter().take(n_closed).map(|x| (x.0, x.1, "closed")).collect();
+    if n_closed < det.len() {
+        if let Some(a) = active {
+            list.push((a, det[det.len() - 1].1, "active"));
+        }
+    }
+    for (id, count, what) in list {
+        let bp = match crate::parse::parse_blob_file(&d.dir.join(format!("t.{}.blob", id))) {
+            Ok(bp) => bp,
+            Err(_) => continue,
+        };
+        if bp.error.is_some() {
+            continue;
+        }
+        // records left behind by failed appends may or may not be counted (in the index only after a regeneration)
+        let maybe = bp.records.iter().filter(|r| r.header_crc_ok && failed.contains(&(id, r.pos))).count();
+        let sound = bp.records.iter().filter(|r| r.header_crc_ok && !failed.contains(&(id, r.pos))).count();
+        if count < sound || count > sound + maybe {
+            return Some((format!("records-count-differs-from-blob-file/{}", what), format!("{} blob {} reports {} records, its file holds {} records of acknowledged appends (+ {} left behind by failed appends)", what, id, count, sound, maybe)));
+        }
+    }
+    None
+}
+
 /// After a restart that followed the fault: a torn record with an intact header may have been indexed by an
 /// index regeneration without data validation. Reads of that key then fail. If the key has acknowledged
 /// versions this is reported under one canonical signature (a listed known finding), otherwise (the key was
 /// never acknowledged: an error is not "served as if it had succeeded") it is only counted. Either way the
 /// key is excluded from the model comparison afterwards.
-async fn probe_torn_keys<const N: usize>(d: &mut Driver<N>, out: &mut CaseOut) {
-    for k in torn_intact_header_keys(d) {
+async fn probe_torn_keys<const N: usize>(d: &mut Driver<N>, out: &mut CaseOut, failed: &[(usize, u64)]) {
+    for k in failed_append_keys(d, failed) {
         if d.tainted.contains(&k) {
             continue;
         }
@@ -253,6 +291,24 @@ async fn probe_torn_keys<const N: usize>(d: &mut Driver<N>, out: &mut CaseOut) {
         // indexed or not, the storage may now count the torn record as a live version of the key in that blob
         // (delete counts, listings below a marker): the key leaves the model comparison either way
         d.tainted.insert(k);
+        if e1.is_none() {
+            // the failed operation itself is served: the classification of the key differs from the model's
+            if let Ok(r) = d.st().read(&key).await {
+                let got = match &r {
+                    pearl::ReadResult::Found(_) => "Found",
+                    pearl::ReadResult::Deleted(_) => "Deleted",
+                    pearl::ReadResult::NotFound => "NotFound",
+                };
+                let exp = match d.model.read(k) {
+                    crate::model::MRead::Found(_) => "Found",
+                    crate::model::MRead::Deleted(_) => "Deleted",
+                    crate::model::MRead::NotFound => "NotFound",
+                };
+                if got != exp {
+                    out.side.push(("torn-append-intact-header/failed-operation-served-after-restart".to_string(), format!("an append that returned an error left a complete-looking record of k{} in the blob (the cut fell into trailing zero bytes and later appends filled the hole); after a restart read(k{}) = {}, without that operation it would be {}", k, k, got, exp)));
+                }
+            }
+        }
         if let Some(e) = e1.or(e2) {
             if d.model.ranked(k).is_empty() {
                 out.failed_put_key_err += 1;
@@ -265,8 +321,10 @@ async fn probe_torn_keys<const N: usize>(d: &mut Driver<N>, out: &mut CaseOut) {
 }
 
 async fn run_case<const N: usize>(d: &mut Driver<N>, ops: &[Op], fault: Option<Fault>, rl: Option<RlimitFault>, label: &str) -> CaseOut {
-    let mut out = CaseOut { violation: None, fired: false, outcome: "not-fired", fault_step: None, quarantined: 0, compared: 0, parked: 0, unparked: 0, side: Vec::new(), failed_put_key_err: 0 };
+    let mut out = CaseOut { violation: None, fired: false, outcome: "not-fired", fault_step: None, quarantined: 0, compared: 0, parked: 0, unparked: 0, side: Vec::new(), failed_put_key_err: 0, count_checks: 0 };
     let mut restarted_since_fault = false;
+    // (blob id, offset) of appends that failed: what they left in the file was never acknowledged
+    let mut failed_appends: Vec<(usize, u64)> = Vec::new();
     let mut parked: BTreeMap<usize, Vec<crate::model::Rec>> = BTreeMap::new();
     let ignore_mode = d.cfg.ignore_corrupted;
     let dir = d.dir.clone();
@@ -312,6 +370,13 @@ async fn run_case<const N: usize>(d: &mut Driver<N>, ops: &[Op], fault: Option<F
         };
         drop(guard);
         let ev = tap::drain(&dir);
+        for e in ev.iter().filter(|e| !e.ok && e.kind == Kind::Write) {
+            if e.path.extension().and_then(|x| x.to_str()) == Some("blob") {
+                if let Some(id) = crate::tap::blob_id_of(&e.path) {
+                    failed_appends.push((id, e.offset));
+                }
+            }
+        }
         let injected_now = ev.iter().any(|e| e.injected) || (lowered && ev.iter().any(|e| !e.ok));
         if injected_now {
             out.fired = true;
@@ -402,7 +467,7 @@ async fn run_case<const N: usize>(d: &mut Driver<N>, ops: &[Op], fault: Option<F
             restarted_since_fault = true;
         }
         if restarted_since_fault && d.storage.is_some() {
-            probe_torn_keys(d, &mut out).await;
+            probe_torn_keys(d, &mut out, &failed_appends).await;
         }
         if let Err(m) = d.check(S_ALL_QUERIES).await {
             let when = if out.fired { "after-fault" } else { "before-fault" };
@@ -415,6 +480,12 @@ async fn run_case<const N: usize>(d: &mut Driver<N>, ops: &[Op], fault: Option<F
                 return out;
             }
             fail!(format!("{}/{}/{}", m.sig, when, label), format!("after step {} ({}): {}", d.step, op.short(), m.detail));
+        }
+        if out.fired && d.storage.is_some() {
+            if let Some((sig, detail)) = counts_vs_files(d, &failed_appends).await {
+                fail!(format!("{}/{}", sig, label), format!("after step {} ({}): {}", d.step, op.short(), detail));
+            }
+            out.count_checks += 1;
         }
     }
     if fault_active {
@@ -451,7 +522,7 @@ async fn run_case<const N: usize>(d: &mut Driver<N>, ops: &[Op], fault: Option<F
     }
     d.resync_lifecycle().await;
     if out.fired {
-        probe_torn_keys(d, &mut out).await;
+        probe_torn_keys(d, &mut out, &failed_appends).await;
     }
     if let Err(m) = d.check(S_ALL_QUERIES).await {
         fail!(format!("{}/after-restart/{}", m.sig, label), format!("after the final restart: {}", m.detail));
@@ -569,6 +640,7 @@ fn eval_history<const N: usize>(ctx: &Ctx, sh: &mut Shard, rng: &mut Rng, cfg: &
                 sh.add("queries_compared", out.compared);
                 sh.add("blobs_quarantined_at_restart", out.quarantined);
                 sh.add("blobs_skipped_at_init_ignore_mode", out.parked);
+                sh.add("per_blob_count_vs_file_checks", out.count_checks);
                 sh.add("skipped_blobs_served_again_later", out.unparked);
                 if out.fired {
                     sh.add(&format!("fired_{}", c.label), 1);
